@@ -45,6 +45,11 @@ def write_replay(prop, rf, reg):
         except Exception as e:
             src = None
             detail = dict(detail, replay_generation_error=repr(e))
+    if src is None and c is not None and model is None and rf.get('regressed'):
+        # an obligation that is reported because it can no longer be established (no counter-model): there is no
+        # input to rebuild; running the function on default stand-ins would say nothing
+        src = ('print("no counter-model: the obligation is reported because the verifier can no longer establish "\n'
+               '      "it after the change of the source (see the reason above)")\nsys.exit(2)\n')
     if src is None and c is not None:
         try:
             from . import replaygen
